@@ -417,42 +417,7 @@ func (rn *Runner) step(in Input) error {
 		if err != nil {
 			return fmt.Errorf("concretise %+v: %v", o, err)
 		}
-		rn.ops[p] = o
-		rn.Calls++
-		if o.Typ == "DELETE" {
-			ev := Event{"ev": "delete", "op": o}
-			rn.mu.Lock()
-			rn.lastDel = ev
-			rn.mu.Unlock()
-			oks, fails, err := rn.r.DeleteEntry(o.NI, p)
-			rn.mu.Lock()
-			rn.lastDel = nil
-			rn.mu.Unlock()
-			if err != nil {
-				rn.Sink.Emit(Event{"ev": "callerr", "op": o, "msg": err.Error(), "st": rn.state()})
-				return nil
-			}
-			ev["oks"], ev["fails"], ev["st"] = ids(oks), ids(fails), rn.state()
-			rn.Sink.Emit(ev)
-			return nil
-		}
-		rn.mu.Lock()
-		rn.tries = nil
-		rn.mu.Unlock()
-		oks, fails, err := rn.r.AddEntry(o.NI, p)
-		rn.mu.Lock()
-		tries := rn.tries
-		rn.tries = nil
-		rn.mu.Unlock()
-		if err != nil {
-			rn.Sink.Emit(Event{"ev": "callerr", "op": o, "msg": err.Error(), "ntries": len(tries), "st": rn.state()})
-			return nil
-		}
-		rn.Sink.Emit(Event{"ev": "addbegin", "op": o})
-		for _, t := range tries {
-			rn.Sink.Emit(t)
-		}
-		rn.Sink.Emit(Event{"ev": "addend", "oks": ids(oks), "fails": ids(fails), "st": rn.state()})
+		rn.applyOp(o, p)
 	case "flush":
 		rn.Calls++
 		nis := append([]string{}, in.NIs...)
@@ -471,6 +436,57 @@ func (rn *Runner) step(in Input) error {
 		return fmt.Errorf("unknown input %q", in.A)
 	}
 	return nil
+}
+
+// ApplyProto applies a concrete operation (e.g. one produced by the
+// reconciler) to the RIB under test and records it like any other operation.
+func (rn *Runner) ApplyProto(p *spb.AFTOperation) {
+	rn.applyOp(abs.AbstractOp(p), p)
+}
+
+// RIB returns the RIB under test.
+func (rn *Runner) RIB() *rib.RIB { return rn.r }
+
+// State projects the RIB under test.
+func (rn *Runner) State() any { return rn.state() }
+
+func (rn *Runner) applyOp(o abs.Op, p *spb.AFTOperation) {
+	rn.ops[p] = o
+	rn.Calls++
+	if o.Typ == "DELETE" {
+		ev := Event{"ev": "delete", "op": o}
+		rn.mu.Lock()
+		rn.lastDel = ev
+		rn.mu.Unlock()
+		oks, fails, err := rn.r.DeleteEntry(o.NI, p)
+		rn.mu.Lock()
+		rn.lastDel = nil
+		rn.mu.Unlock()
+		if err != nil {
+			rn.Sink.Emit(Event{"ev": "callerr", "op": o, "msg": err.Error(), "st": rn.state()})
+			return
+		}
+		ev["oks"], ev["fails"], ev["st"] = ids(oks), ids(fails), rn.state()
+		rn.Sink.Emit(ev)
+		return
+	}
+	rn.mu.Lock()
+	rn.tries = nil
+	rn.mu.Unlock()
+	oks, fails, err := rn.r.AddEntry(o.NI, p)
+	rn.mu.Lock()
+	tries := rn.tries
+	rn.tries = nil
+	rn.mu.Unlock()
+	if err != nil {
+		rn.Sink.Emit(Event{"ev": "callerr", "op": o, "msg": err.Error(), "ntries": len(tries), "st": rn.state()})
+		return
+	}
+	rn.Sink.Emit(Event{"ev": "addbegin", "op": o})
+	for _, t := range tries {
+		rn.Sink.Emit(t)
+	}
+	rn.Sink.Emit(Event{"ev": "addend", "oks": ids(oks), "fails": ids(fails), "st": rn.state()})
 }
 
 // Run executes a whole input sequence.
